@@ -164,6 +164,14 @@ def map_prog(chunksize, lens, mw=2, timeout=None, kind="plain", shape="list"):
              [NEW, ["map", "m", fn, chunksize, list(lens), shape], shutdown(True)])
 
 
+def map_partial(chunksize, lens, take, mw=2):
+    fn = {1: "sq", 2: "add", 3: "add3"}[len(lens)]
+    return P(f"map-partial-c{chunksize}-l{'x'.join(map(str, lens))}-take{take}-w{mw}",
+             pool("plain", mw, None),
+             [NEW, ["map_partial", "m", fn, chunksize, list(lens), take], sub("z", "ok", 1),
+              ["result", "z"], shutdown(True)])
+
+
 def cancel_two_threads(mw=1):
     return P(f"cancel2-w{mw}", pool(max_workers=mw),
              [NEW, sub("a", "ok", 1), sub("b", "ok", 2), sub("c", "ok", 3), sub("d", "ok", 4),
@@ -225,6 +233,33 @@ def forced(mw=2, reusable=False, queued=3):
         ops += [["shutdown", True, True], ["submit_expect", "z"]]
     return P(f"forced-w{mw}-r{reusable}-q{queued}", pool("reusable" if reusable else "plain", mw),
              ops)
+
+
+def shutdown_in_callback(kind="shutdown", mw=2, queued=2):
+    """A done-callback shuts the executor down (it runs in the manager thread)."""
+    ops = [NEW, sub("a", "ok", 1), ["callback", "a", kind]]
+    ops += [sub(f"q{i}", "ok", i) for i in range(queued)] + [WAIT, shutdown(True)]
+    return P(f"cb-{kind}-w{mw}-q{queued}", pool(max_workers=mw), ops)
+
+
+def with_body_raises(k=2, mw=2):
+    ops = [NEW] + [sub(f"t{i}", "ok", i) for i in range(k)] + [["with_exit", "raise"],
+                                                              ["submit_expect", "z"]]
+    return P(f"with-raise-k{k}-w{mw}", pool(max_workers=mw), ops)
+
+
+def shutdown_twice(mw=2, second_wait=True):
+    """Two threads shut the same executor down (both graceful)."""
+    return P(f"shutdown-twice-w{mw}-{second_wait}", pool(max_workers=mw),
+             [NEW, sub("a", "ok", 1), sub("b", "ok", 2), ["shutdown", True, False]],
+             [["shutdown", second_wait, False]])
+
+
+def late_callbacks(mw=1):
+    return P(f"late-callbacks-w{mw}", pool(max_workers=mw),
+             [NEW, sub("a", "ok", 1), ["callback", "a", "add_callback"], ["result", "a"],
+              ["late_callback", "a"], sub("b", "raise"), WAIT, ["late_callback", "b"],
+              shutdown(True)])
 
 
 def forced_descendants(mw=2, reusable=False, busy=False):
